@@ -10,6 +10,7 @@ import (
 	"path/filepath"
 	"reflect"
 	"strconv"
+	"strings"
 
 	"github.com/TimothyStiles/poly"
 	"github.com/TimothyStiles/poly/io/genbank"
@@ -133,6 +134,29 @@ func c15judge(r *mc.Recorder, cas string, tags []string, x poly.Sequence, prev *
 		check(prev.cas+" (re-checked after a later Parse)", prev.y, prev.want, prev.seq, "features-relinked-stable")
 	}
 	*prev = c15prev{y, want, x.Sequence, cas}
+}
+
+// c15viaFile: the same round trip through the library's own writer and reader (a file).
+func c15viaFile(r *mc.Recorder, dir, cas string, tags []string, x poly.Sequence) {
+	p := filepath.Join(dir, "v.json")
+	var y poly.Sequence
+	if pn := catch(func() { polyjson.Write(x, p); y = polyjson.Read(p) }); pn != "" {
+		r.Failf("no-panic", cas+" (Write/Read via a file)", tags, "a value", pn)
+		return
+	}
+	if !reflect.DeepEqual(c15norm(x), c15norm(y)) {
+		r.Failf("equal-in-every-field", cas+" (Write/Read via a file)", tags, "the value that was written", "differs")
+		return
+	}
+	want := c15featSeqs(x)
+	for i, f := range y.Features {
+		if i < len(want) && want[i] != "<invalid location>" {
+			var g string
+			if pn := catch(func() { g = f.GetSequence() }); pn != "" || g != want[i] {
+				r.Failf("features-relinked", cas+" (Write/Read via a file)", tags, fmt.Sprintf("feature %d sequence %s", i, q(want[i])), q(g)+pn)
+			}
+		}
+	}
 }
 
 var c15texts = []string{"plain ASCII text", "café é", "日本語のテキスト", "emoji 😀 here", `quote " inside`, `back\slash`, "<&> html", "line\nbreak\tand tab", "sep arator", ""}
@@ -273,11 +297,16 @@ func c15units(tier string) []mc.Unit {
 	us = append(us, mc.Unit{Name: "token-pairs", Weight: 60, Run: func(r *mc.Recorder) {
 		var prev c15prev
 		var cnt int64
-		toks := []string{"\\", "\\\\", "\"", "\\\"", "//", "/*", "*/", "#", "http://example.org/a//b", "'", "<", "&", "\u2028", "{", "}", "[", "]", ":", ",", "null", "1e3", "\n", "\t", "\u00e9", "\U0001F9EC", "-->", "\x00", "\r\n"}
+		toks := []string{"\\", "\\\\", "\"", "\\\"", "//", "/*", "*/", "#", "http://example.org/a//b", "'", "<", "&", "\u2028", "{", "}", "[", "]", ":", ",", "null", "1e3", "\n", "\t", "\u00e9", "\U0001F9EC", "-->", "\x00", "\r\n", "\\u003c", "\\u003e", "\\u0026", "\\u2028", "\\n", "\\\\n", "\\t", "\\/", "\\x", "%5C", "&lt;", "&amp;"}
 		var vals []string
 		for _, t := range toks {
 			vals = append(vals, "word"+t, "a "+t+" b", t)
 		}
+		tdir, err := os.MkdirTemp("", "c15t")
+		if err != nil {
+			panic(err)
+		}
+		defer os.RemoveAll(tdir)
 		for _, a := range vals {
 			for _, b := range vals {
 				var x poly.Sequence
@@ -290,6 +319,9 @@ func c15units(tier string) []mc.Unit {
 				x.Features[0].SequenceLocation = poly.Location{Start: 1, End: 5}
 				cnt++
 				c15judge(r, fmt.Sprintf("description %q, then feature note %q", a, b), []string{"token-pair"}, x, &prev)
+				if a == b || strings.HasPrefix(a, "word") && strings.HasPrefix(b, "a ") {
+					c15viaFile(r, tdir, fmt.Sprintf("description %q, then feature note %q", a, b), []string{"token-pair"}, x)
+				}
 			}
 			if r.Enough() {
 				break
@@ -300,6 +332,60 @@ func c15units(tier string) []mc.Unit {
 		r.AddTransitions(cnt)
 		r.AddNontrivial(cnt)
 		r.Bound("token-pairs", fmt.Sprintf("all ordered pairs of %d values (%d tokens as suffix, infix, whole value) in an early and a late string field", len(vals), len(toks)))
+	}})
+	// operand order and topology: every order of three spans as the operands of a join (and of a join inside a
+	// complement), on linear, circular and undeclared molecules, with and without a complemented operand
+	us = append(us, mc.Unit{Name: "join-orders", Weight: 20, Run: func(r *mc.Recorder) {
+		var prev c15prev
+		var cnt int64
+		tdir, err := os.MkdirTemp("", "c15j")
+		if err != nil {
+			panic(err)
+		}
+		defer os.RemoveAll(tdir)
+		spans := []poly.Location{{Start: 0, End: 3}, {Start: 5, End: 9}, {Start: 10, End: 12}}
+		perms := [][]int{{0, 1, 2}, {0, 2, 1}, {1, 0, 2}, {1, 2, 0}, {2, 0, 1}, {2, 1, 0}, {0, 0, 1}, {2, 2}, {1, 0}}
+		for _, pm := range perms {
+			for topo := 0; topo < 4; topo++ {
+				for cflag := 0; cflag < 3; cflag++ {
+					var subs []poly.Location
+					for i, k := range pm {
+						l := spans[k]
+						if cflag == 1 && i == 0 {
+							l.Complement = true
+						}
+						subs = append(subs, l)
+					}
+					loc := poly.Location{Join: true, SubLocations: subs, Complement: cflag == 2}
+					var x poly.Sequence
+					x.Sequence = "aaacctttggcatgca"
+					x.Meta = poly.Meta{Name: "n", Locus: poly.Locus{Name: "l", MoleculeType: "DNA", SequenceLength: "16"}}
+					switch topo {
+					case 0:
+						x.Meta.Locus.Linear = true
+					case 1:
+						x.Meta.Locus.Circular = true
+					case 2:
+						x.Meta.Locus.Linear, x.Meta.Locus.Circular = true, true
+					}
+					for _, typ := range []string{"CDS", "misc_feature"} {
+						f := poly.Feature{Name: "f", Type: typ, Attributes: map[string]string{"codon_start": "2"}}
+						f.SequenceLocation = poly.Location{Start: 0, End: 1}
+						x.AddFeature(&f)
+						x.Features[len(x.Features)-1].SequenceLocation = loc
+					}
+					cas := fmt.Sprintf("join of spans in order %v, topology %d, complement mode %d", pm, topo, cflag)
+					cnt++
+					c15judge(r, cas, []string{"join-order"}, x, &prev)
+					c15viaFile(r, tdir, cas, []string{"join-order"}, x)
+				}
+			}
+		}
+		r.Eval(cnt)
+		r.AddStates(cnt)
+		r.AddTransitions(cnt)
+		r.AddNontrivial(cnt)
+		r.Bound("join-orders", "9 operand orders (all permutations of three spans, repeats, descending pairs) x 4 topology declarations x 3 complement modes x 2 feature types, in memory and through Write/Read")
 	}})
 	// integers at the edges of int32, of exact float64 representation and of int64, in every integer field
 	us = append(us, mc.Unit{Name: "integer-edges", Weight: 20, Run: func(r *mc.Recorder) {
